@@ -15,16 +15,16 @@ Inductive case :=
 | CE2E (chunked whole : list Z) (errc errw : bool) (k max_entry : Z).
     (* bnp.open(path).read_chunks(k) vs .read(): canonical serialisation of the entries *)
 
-Definition ends_nl (l : list Z) : bool := last l 0 =? 10.
+Definition ends_nl_c (l : list Z) : bool := last l 0 =? 10.
 Definition chunk_shape_ok (f : fmt) (c : list Z) : bool :=
   match f with
-  | Delim _ => ends_nl c
-  | OneLine n _ _ => ends_nl c && ((count_nl c mod n =? 0)%nat)
-  | MultiFasta => ends_nl c && (nthZ c 0 =? 62)
+  | Delim _ => ends_nl_c c
+  | OneLine n _ _ => ends_nl_c c && ((count_nl c mod n =? 0)%nat)
+  | MultiFasta => ends_nl_c c && (nthZ c 0 =? 62)
   end.
 (* the file with a final line break (markers are never part of delivered buffers) *)
 Definition norm_text (file : list Z) : list Z :=
-  match file with [] => [] | _ => if ends_nl file then file else file ++ [10] end.
+  match file with [] => [] | _ => if ends_nl_c file then file else file ++ [10] end.
 
 Definition spec_ok (c : case) : bool :=
   match c with
